@@ -1670,6 +1670,17 @@ async fn relay_case(log: &mut Log, st: &mut Stats, rng: &mut Rng, case_no: u64) 
                 op_open(&mut w, log, st, 2, true, ext).await;
                 good_handshake(&mut w, log, st, rng, 2, true, "good@h").await;
             }
+            // wave 2 (inertness of an unauthenticated session, tie of the model's `monitoring` guard): a
+            // remotable local actor appears (and joins a group) / disappears while S0 and S1 are alive and
+            // still waiting for a digest: the real pid-registry / pg notifications go out, and nothing
+            // may reach these sessions (oracle clause effect-before-authentication on the `local` op)
+            if rng.chance(2, 3) {
+                st.bump("lts_local_unauthenticated");
+                op_local(&mut w, log, st, "spawn", Some(2 * rng.below(2))).await;
+                if rng.chance(1, 2) {
+                    op_local(&mut w, log, st, "term", None).await;
+                }
+            }
             for _ in 0..rng.range(3, 6) {
                 let (k, from) = if rng.chance(1, 2) { (0, 1) } else { (1, 0) };
                 match rng.below(5) {
